@@ -23,7 +23,41 @@ def make_case(cid, rnd, stdlib):
     root = "/vp%d" % (cid % 3)
     steps = [{"op": "analyze", "path": root + "/conftest.py", "text": CONFTEST},
              {"op": "analyze", "path": root + "/pkg/test_mod.py", "text": text}, {"q": "dump"}]
+    if rnd.random() < 0.3:
+        # the module is analysed a first time with a text of the SAME byte length whose line breaks
+        # sit elsewhere (one blank line moved), then with the text itself: whatever is cached per
+        # file between the two analyses must not leak into what is recorded for the second
+        prev = same_length_variant(rnd, text)
+        if prev is not None:
+            steps.insert(1, {"op": "analyze", "path": root + "/pkg/test_mod.py", "text": prev})
+            tags = tags + ["reanalysis:same-length"]
     return {"id": cid, "steps": steps, "tags": tags, "queries": 1}
+
+
+def same_length_variant(rnd, text):
+    import warnings
+    lines = text.split("\n")
+    blanks = [i for i, l in enumerate(lines[:-1]) if l.strip() == ""]
+    for _ in range(8):
+        if not blanks:
+            return None
+        i = rnd.choice(blanks)
+        j = rnd.randrange(1, len(lines) - 1)
+        if abs(i - j) < 2:
+            continue
+        moved = lines[:i] + lines[i + 1:]
+        j2 = j if j < i else j - 1
+        cand = "\n".join(moved[:j2] + [lines[i]] + moved[j2:])
+        if len(cand.encode()) != len(text.encode()) or cand == text:
+            continue
+        try:
+            with warnings.catch_warnings():
+                warnings.simplefilter("ignore")
+                compile(cand, "p", "exec")
+            return cand
+        except (SyntaxError, ValueError):
+            continue
+    return None
 
 
 def to_coq(case, obs_list, stdlib):
